@@ -135,7 +135,7 @@ def phF (c : Core F P Err) (D : SR F P) (x y z : F) : Res3 F Err :=
   | .ok (x, y) => phG c D x y z
 def phD (c : Core F P Err) (s d : Nat) (D : SR F P) (x y z : F) : Res3 F Err :=
   match c.dt s d x y z with
-  | .error e => .err e
+  | .error e => failToRes e
   | .ok (x, y, z) => phF c D (if isNaN D.fromGreenwich then x else sub x D.fromGreenwich) y z
 def phB (c : Core F P Err) (s d : Nat) (S D : SR F P) (x y z : F) : Res3 F Err :=
   match (if S.longlat then (.ok (mul x deg2rad, mul y deg2rad) : Except Err (F × F))
@@ -218,7 +218,7 @@ theorem ph_D (hz : fl.lookup "z" = some z) :
   simp only [Gen.transform3, dropSt, headSt]
   unfold phD
   cases hd : c.dt s d a b z with
-  | error e => simp [exec, evalB_strEq, evalB_strNe, evalB_notNaN, evalB_errNotNil, evalF, evalFs, getSR, List.lookup, genEnv, Gen.strConsts, stAt, post3, failWith, longlatStr, liftEV, assignAll, assign1, applyOp, lvEx, bindFn, hz, hd]
+  | error e => cases e <;> simp [exec, evalB_strEq, evalB_strNe, evalB_notNaN, evalB_errNotNil, evalF, evalFs, getSR, List.lookup, genEnv, Gen.strConsts, stAt, post3, failWith, longlatStr, liftEV, assignAll, assign1, applyOp, lvEx, bindFn, hz, hd, failToRes]
   | ok r =>
     obtain ⟨x', y', z'⟩ := r
     have hN' := fun a b => hN (("z", z') :: fl) z' (by simp [List.lookup]) a b
